@@ -1,17 +1,18 @@
 ----------------------------- MODULE MC_Migrate ------------------------------
 (* Family Migrate (C17): three processes built from different versions of    *)
 (* the code - the original type (v1), a rename (v2), another rename of the   *)
-(* same original (v2q), a chain of two renames registered in either order    *)
-(* (v3), or no knowledge of the type at all (v0) - exchange errors of the    *)
+(* same original (v2q), a chain of two (v3) or three (v4) renames registered   *)
+(* in any order, or no knowledge of the type at all (v0) - exchange errors of the    *)
 (* renamed lineage and compare them.                                        *)
 EXTENDS MCGen
 
-Kinds == {"v1", "v2", "v2q", "v3", "v0"}
+Kinds == {"v1", "v2", "v2q", "v3", "v4", "v0"}
 \* types a build links, its local type, the renames it declares
 TysOf(k) == CASE k = "v1" -> <<"uRenA">> [] k = "v2" -> <<"uRenB">> [] k = "v2q" -> <<"uRenQ">>
-              [] k = "v3" -> <<"uRenC">> [] OTHER -> <<>>
+              [] k = "v3" -> <<"uRenC">> [] k = "v4" -> <<"uRenD">> [] OTHER -> <<>>
 Decl(k) == CASE k = "v2" -> {<<"uRenA", "uRenB">>} [] k = "v2q" -> {<<"uRenA", "uRenQ">>}
-             [] k = "v3" -> {<<"uRenA", "uRenB">>, <<"uRenB", "uRenC">>} [] OTHER -> {}
+             [] k = "v3" -> {<<"uRenA", "uRenB">>, <<"uRenB", "uRenC">>}
+             [] k = "v4" -> {<<"uRenA", "uRenB">>, <<"uRenB", "uRenC">>, <<"uRenC", "uRenD">>} [] OTHER -> {}
 KindOf(p) == hist[p].a[1][1]
 \* renames process p has still to register
 Pending(p) == {d \in Decl(KindOf(p)) : d[2] \notin DOMAIN procs.migs[p]}
